@@ -451,6 +451,14 @@ class Ocra(Bundle):
         # pos = number of counter advances so far; the search is bounded by the number of calls through the path length
         return [(k, i) for i in range(len(self.qs)) for k in ('R', 'Vok', 'Vbad')]
     def apply(self, L, A, st, pos, label, i):
+        r = self.apply0(L, A, st, pos, label, i)
+        if r is not None and self.ctr0:
+            # the counter read back from the state is the one the next password will use
+            g = A.buf(8, 0xEE); L.call('botpOCRAStepG', g, st)
+            if g.get() != self.ctr_at(r[0]):
+                raise Viol('%s: call %d (%s), botpOCRAStepG returns counter %s, expected %s' % (self.name, r[1], label, g.get().hex(), self.ctr_at(r[0]).hex()))
+        return r
+    def apply0(self, L, A, st, pos, label, i):
         adv, calls = pos
         if calls >= self.depth:
             return None
